@@ -94,6 +94,11 @@ CHECKS = {
    "For eight mechanism families (remote authorizer, generic contextualizer, generic authenticator, jwt authenticator key cache, introspection, jwt finalizer, client credentials, RFC 7234 http cache) the full product of configurations (0-3 endpoint headers, values, payload templates, forwarded headers/cookies, auth strategies, rule-level overrides) x pair kinds is executed: the result for B with the cache primed by A must equal B's result against an empty cache, and an identical second request must hit the cache with the same key under every map iteration order reachable with <=1 (quick) / <=2 (thorough) deviating iterations.",
    "Remotes are pure functions of the complete received request, so the influencing set is derived from what was actually sent; maps with more than 8 entries are not exhaustively ordered; pairs only.",
    "DESIGN.md 4 C11"),
+ "C14": ("exploration", "enum",
+   "bounded exhaustive enumeration of default rules x rule definitions (every step-kind sequence up to length 4, on_error, backtracking setting, operation mode, forward_to, broken single steps) through the real rule factory, processor, repository and executor with a trace-recording scripted mechanism factory against a reference inheritance model",
+   "Every default rule shape (17) x every execute sequence of length 0-3 (quick) / 0-4 (thorough) over the four step kinds x on_error x backtracking_enabled x mode x forward_to, plus every single step made unknown or given a rejected override, is loaded through the real rule-set processor; the load result must equal the acceptance predicate of the statement and, for accepted rules, the mechanisms executed for three request modes must equal the stage-wise effective pipeline; backtracking is observed behaviourally next to a less specific rule.",
+   "Mechanisms are scripted; only which of them run and in which order is observed.",
+   "DESIGN.md 4 C14"),
 }
 
 NOT_YET = {
